@@ -2,6 +2,8 @@ import Cppcms.C12.Roundtrip
 import Cppcms.C12.Feed
 import Cppcms.C12.Form
 import Cppcms.C12.Header
+import Cppcms.C12.Limits
+import Cppcms.C12.EndToEnd
 /-!
 # C12 property theorems
 
@@ -193,6 +195,32 @@ example : Spec.WFparts [120, 121]
     have := h.length_le
     simp [Spec.delimiter, Spec.crlf, Spec.dashes] at this
 
+/-- **request_roundtrip** (end to end, from the `Content-Type` header to `post()`/`files()`):
+for `Content-Type: multipart/form-data; boundary=<token>`, well-formed parts, a declared
+length equal to the body's and within the multipart limit, fields within the field limit,
+and *any* chunking of `Spec.encode`, the application is handed exactly the encoded fields
+(as the `post()` multimap) and files (in order), with status 0. -/
+theorem request_roundtrip (lim : Limits) (bkey : Bytes) (hne : bkey ≠ []) (htok : ∀ c ∈ bkey, tokenChar c = true)
+    (hdisk : lim.diskOk = true) (ps : List Part) (hwf : Spec.WFparts bkey ps)
+    (hsz : ∀ p ∈ ps, p.mime = [] → p.data.length ≤ lim.contentLimit) (cs : List Bytes)
+    (hcs : Spec.IsChunking cs (Spec.encode bkey ps)) (hlim : cs.flatten.length ≤ lim.multipartLimit) :
+    request lim (litMultipartCT ++ bkey) cs.flatten.length cs = .handled (deliver ps).1 (deliver ps).2 := by
+  obtain ⟨hmt, hbd⟩ := boundary_of_content_type bkey hne htok
+  have hcr : (13 : UInt8) ∉ bkey := fun h => (token_not_blank 13 (htok 13 h)).2 rfl
+  have hpos : cs.flatten.length ≠ 0 := by
+    rw [hcs]
+    cases ps <;> simp [Spec.encode, Spec.encodeWith, Spec.dashes, Spec.crlf]
+  have hgt : ¬ cs.flatten.length > lim.multipartLimit := by omega
+  have hstart : start lim (litMultipartCT ++ bkey) cs.flatten.length =
+      .ok (.multipart { boundary := Spec.delimiter bkey, memLimit := lim.memLimit, diskOk := lim.diskOk, fieldLimit := lim.contentLimit }) := by
+    unfold start
+    rw [if_neg hpos, hmt, hbd]
+    simp only [beq_self_eq_true, if_true, hgt, if_false]
+  unfold request
+  rw [hstart]
+  simp only
+  rw [multipart_roundtrip_parts _ bkey rfl ⟨hne, hcr⟩ hdisk ps hwf hsz cs hcs]
+
 /-! ## limits and refusals -/
 
 /-- what a `Seen` hands to the application -/
@@ -226,6 +254,110 @@ theorem limits_respected (lim : Limits) (ct : Bytes) (cl : Nat) (cs : List Bytes
 example : request { contentLimit := 10, multipartLimit := 20, memLimit := 0, diskOk := true }
     [109, 117, 108, 116, 105, 112, 97, 114, 116, 47, 102, 111, 114, 109, 45, 100, 97, 116, 97, 59, 32, 98, 111, 117, 110, 100, 97, 114, 121, 61, 120]
     21 [] = .refused 413 := by decide
+
+/-- the first bytes of a multipart body: everything up to and including the first `--bkey`
+is consumed, then the loop continues on `tail` -/
+theorem run_after_first_boundary (cfg : Cfg) (bkey : Bytes) (hb : cfg.boundary = 13 :: 10 :: 45 :: 45 :: bkey)
+    (cl : Nat) (tail : Bytes) (htail : tail ≠ []) :
+    run cfg cl {} [[45, 45] ++ bkey ++ tail] =
+      match ploop cfg (([45, 45] ++ bkey ++ tail).length == cl) { st := .crlfOrEof, pos := 0 } tail .continueInput with
+      | .error code => .error code
+      | .ok (p', r) =>
+        if (([45, 45] ++ bkey ++ tail).length == cl) && r != .eof then .error Gen.codeNoEofAtLength
+        else run cfg cl { p := p', read := ([45, 45] ++ bkey ++ tail).length } [] := by
+  have hfb := first_boundary cfg.toPCfg (bkey.length + 1) ({} : P) rfl (by rw [hb]; simp [Gen.initPos]; omega)
+  have hinit : ({} : P).pos = 2 := rfl
+  rw [hinit, hb] at hfb
+  simp only [List.drop_succ_cons, List.drop_zero] at hfb
+  rw [run_cons, progress_eq]
+  have e1 : ([45, 45] ++ bkey ++ tail).isEmpty = false := by simp
+  have hrs : ({} : RS).read = 0 := rfl
+  simp only [e1, Bool.false_eq_true, if_false, hrs, Nat.zero_add]
+  have e2 : [45, 45] ++ bkey ++ tail = (45 :: 45 :: bkey) ++ tail := by simp
+  conv => lhs; rw [e2, ploop_pfold cfg _ _ _ _ _ _ hfb htail]
+  rw [← e2]
+  cases ploop cfg (([45, 45] ++ bkey ++ tail).length == cl) { st := .crlfOrEof, pos := 0 } tail .continueInput with
+  | error code => rfl
+  | ok pr =>
+    obtain ⟨p', r⟩ := pr
+    simp only
+    by_cases hc : ((([45, 45] ++ bkey ++ tail).length == cl) && r != .eof) = true
+    · simp only [hc, if_true]
+    · simp only [hc, Bool.false_eq_true, if_false]
+
+/-- **field over the limit**: accepted parts, then a form field (no MIME type) larger than
+`content_length_limit`, then anything: 413 under every chunking, nothing delivered. -/
+theorem field_limit_respected (cfg : Cfg) (bkey : Bytes) (hb : cfg.boundary = Spec.delimiter bkey)
+    (hcr : (13 : UInt8) ∉ bkey) (hdisk : cfg.diskOk = true) (pre post : List Item) (big : Item)
+    (hpre : ∀ it ∈ pre, ItemWF cfg bkey it)
+    (hbig : headerOK big.hdr big.info = true ∧ ¬ Spec.delimiter bkey <:+: big.data)
+    (hfield : big.info.mime = []) (hover : big.data.length > cfg.fieldLimit)
+    (cs : List Bytes) (cl : Nat)
+    (hcs : Spec.IsChunking cs (Spec.encodeWith bkey ((pre ++ big :: post).map fun it => (it.hdr, it.data))))
+    (hcl : cs.flatten.length ≤ cl) :
+    run cfg cl {} cs = .error 413 := by
+  have hb' : cfg.boundary = 13 :: 10 :: 45 :: 45 :: bkey := by rw [hb]; rfl
+  have g : Guard cfg.boundary := ⟨bkey, hb', hcr⟩
+  have h0 : ({} : RS).read = 0 := rfl
+  rw [run_flatten cfg cl cs {} (by rw [h0]; omega), hcs, encodeWith_eq, ← hb']
+  have htl : ∀ (l : List Item), tailOf cfg.boundary (l ++ big :: post) =
+      List.foldr (fun it acc => [13, 10] ++ it.hdr ++ it.data ++ cfg.boundary ++ acc)
+        ([13, 10] ++ big.hdr ++ big.data ++ cfg.boundary ++ tailOf cfg.boundary post) l := by
+    intro l; induction l with
+    | nil => simp [tailOf]
+    | cons x xs ih => simp only [List.cons_append, tailOf, List.foldr_cons, ih]
+  rw [run_after_first_boundary cfg bkey hb' cl _ (tailOf_ne_nil _ _), htl]
+  have hsz : sizeOk cfg big.info.mime big.data.length = false := by
+    simp [sizeOk, hfield]; omega
+  rw [tail_run_oversize cfg g hdisk _ big ⟨hbig.1, noEarly_of_not_infix g (by rw [hb]; exact hbig.2)⟩ hsz _
+    (tailOf_ne_nil _ _) pre _ _ rfl rfl rfl rfl rfl]
+  intro it hit
+  obtain ⟨h1, h2, h3⟩ := hpre it hit
+  refine ⟨h1, noEarly_of_not_infix g (by rw [hb]; exact h2), ?_⟩
+  unfold sizeOk
+  by_cases hm : it.info.mime = []
+  · have := h3 hm; simp [hm]; omega
+  · simp [hm]
+
+/-- **longer than declared** (closing boundary before the declared length, or bytes after
+it): a complete well-formed body followed by anything, with a declared length greater than the
+body's, is answered 400 under every chunking. -/
+theorem early_close_refused (cfg : Cfg) (bkey : Bytes) (hb : cfg.boundary = Spec.delimiter bkey)
+    (hcr : (13 : UInt8) ∉ bkey) (hdisk : cfg.diskOk = true) (items : List Item)
+    (hwf : ∀ it ∈ items, ItemWF cfg bkey it) (extra : Bytes) (cs : List Bytes) (cl : Nat)
+    (hcs : cs.flatten = Spec.encodeWith bkey (items.map fun it => (it.hdr, it.data)) ++ extra)
+    (hcl : cs.flatten.length ≤ cl)
+    (hlong : (Spec.encodeWith bkey (items.map fun it => (it.hdr, it.data))).length < cl) :
+    run cfg cl {} cs = .error 400 := by
+  have hb' : cfg.boundary = 13 :: 10 :: 45 :: 45 :: bkey := by rw [hb]; rfl
+  have g : Guard cfg.boundary := ⟨bkey, hb', hcr⟩
+  have h0 : ({} : RS).read = 0 := rfl
+  rw [run_flatten cfg cl cs {} (by rw [h0]; omega)]
+  rw [hcs] at hcl ⊢
+  rw [encodeWith_eq, ← hb'] at hcl hlong ⊢
+  rw [List.append_assoc, run_after_first_boundary cfg bkey hb' cl _ (by simp [tailOf_ne_nil])]
+  rw [tail_run_gen cfg g hdisk _ extra items _ _ rfl rfl rfl rfl rfl]
+  · by_cases he : extra = []
+    · subst he
+      have hne : ¬ (List.length bkey + List.length (tailOf cfg.boundary items) + 1 + 1 = cl) := by
+        simp only [List.length_append, List.length_cons, List.length_nil] at hlong
+        omega
+      simp [hne]
+    · have : extra.isEmpty = false := by cases extra <;> simp_all
+      simp [this]
+  · intro it hit
+    obtain ⟨h1, h2, h3⟩ := hwf it hit
+    refine ⟨h1, noEarly_of_not_infix g (by rw [hb]; exact h2), ?_⟩
+    unfold sizeOk
+    by_cases hm : it.info.mime = []
+    · have := h3 hm; simp [hm]; omega
+    · simp [hm]
+
+/-- **refusal_codes**: a multipart body is only ever refused with 400 or 413 (in particular the
+`last_file()` failure path of `on_content_progress` is unreachable) -/
+theorem refusal_codes (cfg : Cfg) (cl : Nat) (cs : List Bytes) (code : Nat)
+    (h : run cfg cl {} cs = .error code) : code = 400 ∨ code = 413 :=
+  run_codes cfg cl cs {} code h
 
 /-! ## urlencoded bodies -/
 
